@@ -15,8 +15,19 @@
 #include "vio.hpp"
 // Access to VoseAliasSampler::prob_/alias_ (table dump).  Placed after the standard/Eigen headers so
 // only AI-Toolbox classes are affected; this TU only (access specifiers do not change the layout).
+#include <tuple>
+#include <utility>
+#include <iosfwd>
+#include <boost/multi_array.hpp>
+#include <AIToolbox/Types.hpp>
+#include <AIToolbox/TypeTraits.hpp>
+#include <AIToolbox/Seeder.hpp>
+#include <AIToolbox/Utils/Core.hpp>
 #define private public
 #include <AIToolbox/Utils/Probability.hpp>
+#include <AIToolbox/MDP/Model.hpp>
+#include <AIToolbox/MDP/SparseModel.hpp>
+#include <AIToolbox/POMDP/Model.hpp>
 #undef private
 
 using namespace AIToolbox;
@@ -115,6 +126,46 @@ int main(int argc, char ** argv) {
             ProbabilityVector r = projectToProbability(ve);
             std::vector<double> rv(r.data(), r.data() + r.size());
             o.list(rv);
+        } else if (kind == "sr") {
+            // sr <variant> <S> <A> <O> T[a][s][s1]… R[s][a]… (Ob[a][s1][o]… if O>0) <s> <a> <m> <seed>
+            //   ->  m × (u1 s1 r [u2 o])   variant: dense | sparse | pomdp
+            // The models own a private mt19937; the draw is observed by replaying the library's
+            // distribution object on a copy of the engine taken just before the call.
+            const std::string variant = c.next();
+            size_t S = c.nextSize(), A = c.nextSize(), O = c.nextSize();
+            boost::multi_array<double, 3> t(boost::extents[S][A][S]), r(boost::extents[S][A][S]);
+            for (size_t a = 0; a < A; ++a) for (size_t s = 0; s < S; ++s) for (size_t s1 = 0; s1 < S; ++s1) t[s][a][s1] = c.nextDouble();
+            for (size_t s = 0; s < S; ++s) for (size_t a = 0; a < A; ++a) { double x = c.nextDouble(); for (size_t s1 = 0; s1 < S; ++s1) r[s][a][s1] = x; }
+            boost::multi_array<double, 3> ob(boost::extents[S][A][O ? O : 1]);
+            for (size_t a = 0; a < A; ++a) for (size_t s1 = 0; s1 < S; ++s1) for (size_t o = 0; o < O; ++o) ob[s1][a][o] = c.nextDouble();
+            size_t s = c.nextSize(), a = c.nextSize(), m = c.nextSize();
+            Seeder::setRootSeed((unsigned) c.nextSize());    // the models seed their engines from the global seeder
+            o << m;
+            if (variant == "dense") {
+                MDP::Model model(S, A, t, r, 0.5);
+                for (size_t k = 0; k < m; ++k) {
+                    RandomEngine copy = model.rand_;
+                    o << probabilityDistribution(copy);
+                    auto [s1, rew] = model.sampleSR(s, a);
+                    o << s1 << rew;
+                }
+            } else if (variant == "sparse") {
+                MDP::SparseModel model(S, A, t, r, 0.5);
+                for (size_t k = 0; k < m; ++k) {
+                    RandomEngine copy = model.rand_;
+                    o << probabilityDistribution(copy);
+                    auto [s1, rew] = model.sampleSR(s, a);
+                    o << s1 << rew;
+                }
+            } else if (variant == "pomdp") {
+                POMDP::Model<MDP::Model> model(O, ob, S, A, t, r, 0.5);
+                for (size_t k = 0; k < m; ++k) {
+                    RandomEngine c1 = model.MDP::Model::rand_, c2 = model.rand_;
+                    double u1 = probabilityDistribution(c1), u2 = probabilityDistribution(c2);
+                    auto [s1, ob1, rew] = model.sampleSOR(s, a);
+                    o << u1 << s1 << rew << u2 << ob1;
+                }
+            } else throw std::logic_error("sr: unknown variant " + variant);
         } else throw std::logic_error("unknown case kind " + kind);
     });
 }
